@@ -11,6 +11,18 @@ RULE = ("every generated valid module crossed with single-point naming faults: a
         "model and implementation must agree on accepted/rejected and the oracle demands error (never ok, never panic); non-trivial = distinct faulted module")
 
 
+def facts(res, harness):
+    """regenerated from the source (go/ast): errors assigned inside loops of package asm are checked immediately"""
+    from . import regen
+    r = regen.gen_facts(harness)
+    rows = r["facts"].get("errdrops") or []
+    for row in rows:
+        res.violation("%s:%d (%s): `%s` inside a loop is not followed by `if err != nil`: the error of one element can be overwritten by the next" %
+                      (row["file"], row["line"], row["func"], " ".join(row["stmt"].split())[:120]),
+                      {"ops": [], "fact": row, "replay_hint": "cd /verif/harness && ./bin/harness facts | jq .errdrops"})
+    return {"err_assignments_unchecked_in_loops": rows, "facts_regenerated_changed": r["facts_regenerated_changed"]}
+
+
 def gen(tier, rng, harness=None):
     n = 120 if tier == "quick" else 5000
     lines = []
